@@ -225,7 +225,7 @@ EXTRA = {
            'index and never cross (R02.9); every sum, accumulation and comparison of the force routines and kick/drift/jump operators is dimensionally homogeneous over (L,T,M) (R02.4); '
            'the box edges are one formula per axis. Per-axis membership tests of the tree (particle inside cell) mention each axis exactly once (R02.10).',
     'C03': 'Also: the bisection fallback decides on a finite value (R03.6 - today a known finding: it is NaN-blind); the pair set of the direct and compensated routines leaves out exactly the term solved by the Kepler step for gravity_ignore_terms 1 and 2 (R02.8). The coordinate system whose kick compensates the central attraction names the same mass as its Kepler step (R03.7); the bracket of the bisection fallback is really exchanged for negative steps (R03.8); the cached Jacobi/heliocentric copy advanced by the Kepler step is declared stale for every deferred-mode consumer wherever code outside the integrators changes particles, and on any change of the particle count (R09.10); R09.11 as for C01.',
-    'C04': 'Also: every x/y/z statement triple of every function of every integrator source file is one formula under an axis permutation (R04.6). R03.7: drift and kick of the barycentric splitting add up to the N-body Hamiltonian.',
+    'C04': 'Also: every x/y/z statement triple of every function of every integrator source file is one formula under an axis permutation (R04.6). R03.7: drift and kick of the barycentric splitting add up to the N-body Hamiltonian. A rejected TRACE step restores every member of the integrator struct that the attempt incremented, the centre-of-mass position included (R04.7).',
     'C05': 'Also: the byte count of every case of the writer\'s dtype switch equals the size of the members the rows of that dtype designate (R05.8). Integer members classified inert (warning latches) guard nothing but messages, so a restored simulation takes the same path as the running one (R05.9); re-attaching the output leaves the persisted cadence counters alone (R06.5).',
     'C06': 'Also: descriptor rows designate the member they name (R05.2, shared with C05); every per-snapshot array of the archive index gets a value that does not depend on a field being present in the delta (R06.7). The loop that builds the archive index enlarges its arrays in the last iteration their capacity admits (R06.8); reb_particle_diff compares each member of one particle with the same member of the other (R06.6).',
     'C07': 'Also: every branch of Simulation.save_to_file that calls a C save function drains the message queue afterwards (R07.9).',
